@@ -92,7 +92,7 @@ package recordio
 //@   ensures [offset-follows-stream] r1 == nil ==> w.currentOffset - old(w.currentOffset) == bwPos(w.bufWriter) - old(bwPos(w.bufWriter))
 //@   exit [C20,C04:nil-record-stores-the-header-only] r1 == nil && isnil(record) ==> w.currentOffset == old(w.currentOffset) + callres(writeRecordHeaderV4, 0, 0)
 //@   exit [C20,C04:stored-payload-has-the-advertised-length] r1 == nil && !isnil(record) ==>
-//@        w.currentOffset == old(w.currentOffset) + callres(writeRecordHeaderV4, 0, 0) + (w.compressor != nil ? compressedSize : uncompressedSize)
+//@        w.currentOffset == old(w.currentOffset) + callres(writeRecordHeaderV4, 0, 0) + (w.compressor != nil ? len(callres(CompressionI.CompressWithBuf, 0, 0)) : len(record))
 //@   call 0 of writeRecordHeaderV4: assert [C20,C04:header-carries-the-record-lengths] arg1 == len(record) && arg3 == isnil(record) &&
 //@        (w.compressor == nil ==> arg2 == 0)
 //@   modifies w.currentOffset, w.largestOffset, bwPos(w.bufWriter), bwFlushed(w.bufWriter), w.recordHeaderCache[*]
